@@ -99,6 +99,8 @@ def make_ctx(case, rs, rows=None, for_learn=False):
         return torch.as_tensor(x.astype(np.float32) / 255.0) if for_learn else x
     if kind == "dict":
         d = {k: (rs.randn(n, m) * 1.5).astype(np.float32) for k, m in DICT_KEYS.items()}
+        if case.get("dict_reversed"):           # caller-provided key order differs from the space's
+            d = {k: d[k] for k in reversed(list(d))}
         return {k: torch.as_tensor(v) for k, v in d.items()} if for_learn else d
     x = (rs.randn(n, case["cdim"]) * 1.5).astype(np.float32)
     return torch.as_tensor(x) if for_learn else x
@@ -453,7 +455,7 @@ class C19(vlib.Driver):
                 if tier == "quick" and space in ("simba", "dict") and j % 2 == 0:
                     continue            # quick tier: every second method for these two kinds (thorough: all)
                 m1 = [1, 0, 1]
-                cases.append(base(algo="ucb" if j % 2 else "ts", space=space, lam=rng.choice([0.5, 2.0]),
+                cases.append(base(algo="ucb" if j % 2 else "ts", space=space, lam=rng.choice([0.5, 2.0]), dict_reversed=(j % 4 < 2),
                                   ops=[["act", None], ["act", m1], ["archm", meth, 1], ["act", None], ["act", m1], ["clone"],
                                        ["archm", meth, 1], ["clone"], ["act", None],
                                        ["reload", "load" if j % 2 else "load_checkpoint"], ["act", None]]))
